@@ -148,15 +148,20 @@ impl LogWriter for StdWriter {
                 )
             }
             InnerStdWriter::Buffered(m_w) => {
-                let mut w = m_w.lock().map_err(|_e| io_err("Poison"))?;
+                // Format before taking the lock: the format function can call back into the
+                // logger (log calls in Display or Debug implementations of the arguments),
+                // and the mutex is not reentrant.
+                let mut formatted = Vec::<u8>::with_capacity(200);
                 write_buffered(
                     self.format,
                     now,
                     record,
-                    &mut *w,
+                    &mut formatted,
                     #[cfg(test)]
                     Some(&self.validation_buffer),
-                )
+                )?;
+                let mut w = m_w.lock().map_err(|_e| io_err("Poison"))?;
+                w.write_all(&formatted)
             }
             #[cfg(feature = "async")]
             InnerStdWriter::Async(handle) => {
